@@ -80,7 +80,7 @@ PROPS = {
                   "Orbit.C05.replication_never_forgets_cached_heads", "Orbit.C05.on_fully_loaded_stores_the_cache_is_the_heads_of_the_log",
                   "Orbit.C05.limited_load_then_replication_forgot_a_branch_before_the_fix", "Orbit.C05.reload_joins_only_entries_join_accepts", "Orbit.C05.refused_ancestor_lost_the_valid_entries_above_it_before_the_fix", "Orbit.C05.replication_never_shrinks_what_the_cache_reaches",
                   "Orbit.C05.reload_succeeds_only_over_every_cached_head", "Orbit.C05.reload_under_an_ended_context_reported_success_before_the_fix",
-                  "Orbit.C05.write_never_forgets_cached_heads", "Orbit.C05.write_never_shrinks_what_the_cache_reaches", "Orbit.C05.write_after_snapshot_load_forgot_later_writes_before_the_fix", "Orbit.C05.load_steps_tied_to_go_text", "Orbit.C05.kept_heads_are_decided_before_the_append", "Orbit.C05.kept_heads_before_append_tied_to_go_text"],
+                  "Orbit.C05.write_never_forgets_cached_heads", "Orbit.C05.write_never_shrinks_what_the_cache_reaches", "Orbit.C05.write_after_snapshot_load_forgot_later_writes_before_the_fix", "Orbit.C05.load_steps_tied_to_go_text", "Orbit.C05.kept_heads_are_decided_before_the_append", "Orbit.C05.kept_heads_before_append_tied_to_go_text", "Orbit.C05.failed_load_leaves_what_came_back_readable", "Orbit.C05.failed_load_example"],
         families=[("routes", 100, 3000, 14), ("kv", 40, 1000, 12), ("reload", 40, 1000, 12), ("limit", 40, 1000, 12), ("forge", 30, 800, 10), ("snapshot", 40, 1000, 10)],
         corr_fields={"values", "heads", "idx", "len", "local", "remote", "load", "rev"},
         nontrivial=lambda lines: any(l.startswith("restarted ") for l in lines) and sum(1 for l in lines if l.startswith("entry ")) >= 2,
